@@ -258,7 +258,9 @@ fn static_diff(s: &Schema, which: &str) -> Vec<(String, String)> {
             if let Some(path) = &a.oneof {
                 // find the oneof enum by its Rust path suffix
                 let oneof = RUST_ITEMS.iter().find(|i| i.kind == "oneof" && i.rust_path.ends_with(&format!("::{}", path)));
-                let members: BTreeSet<u32> = d.fields.iter().filter(|x| x.oneof.is_some() && d.oneofs[x.oneof.unwrap()] == f.name).map(|x| x.number).collect();
+                // the schema's oneof is found through its members, not through its name (the wire does not see names)
+                let group = a.tags.iter().find_map(|t| d.fields.iter().find(|x| x.number == *t).and_then(|x| x.oneof));
+                let members: BTreeSet<u32> = d.fields.iter().filter(|x| x.oneof.is_some() && x.oneof == group).map(|x| x.number).collect();
                 let tags: BTreeSet<u32> = a.tags.iter().copied().collect();
                 if members != tags {
                     out.push(("oneof-members".into(), format!("{which}: {n}.{}: Rust lists tags {:?}, the schema's oneof has {:?}", f.name, tags, members)));
@@ -289,6 +291,12 @@ fn static_diff(s: &Schema, which: &str) -> Vec<(String, String)> {
                 out.push(("attribute".into(), format!("{which}: {n}.{}: no tag in `{}`", f.name, f.attr)));
                 continue;
             };
+            // the same name under another number: the two sides disagree on what the number means
+            if let Some(other) = d.fields.iter().find(|x| x.name == f.name.trim_start_matches("r#") && x.number != tag) {
+                out.push(("field-number".into(), format!("{which}: {n}.{} has tag {tag} in Rust and number {} in the schema", f.name, other.number)));
+                covered.insert(other.number);
+                continue;
+            }
             let Some(fd) = d.fields.iter().find(|x| x.number == tag) else {
                 out.push(("field-missing-in-schema".into(), format!("{which}: {n}.{} has tag {tag} which the schema does not define", f.name)));
                 continue;
@@ -348,7 +356,12 @@ fn static_diff(s: &Schema, which: &str) -> Vec<(String, String)> {
             Some(it) => {
                 let a: BTreeSet<(String, i64)> = vals.iter().map(|v| (v.0.clone(), v.1 as i64)).collect();
                 let b: BTreeSet<(String, i64)> = it.values.iter().map(|v| (v.2.to_string(), v.1)).collect();
-                if a != b {
+                // a constant is identified by name and number: the same name under another number, or a number
+                // that one side lacks, is a difference; a constant merely renamed on one side is not
+                let moved = a.iter().any(|(n, k)| b.iter().any(|(n2, k2)| n == n2 && k != k2));
+                let na: BTreeSet<i64> = a.iter().map(|v| v.1).collect();
+                let nb: BTreeSet<i64> = b.iter().map(|v| v.1).collect();
+                if moved || na != nb {
                     out.push(("enum-values".into(), format!("{which}: enum {n}: schema {:?}, Rust {:?}", a, b)));
                 }
             }
@@ -473,26 +486,21 @@ impl Prop for C07 {
                 for (c, d) in static_diff(&e.python, "python _pb2") {
                     x.violate(&format!("C07:static:python:{c}"), d);
                 }
-                let (a, b) = (e.proto.fingerprint(), e.python.fingerprint());
-                if a != b {
-                    let diff: Vec<&String> = a.iter().filter(|l| !b.contains(l)).chain(b.iter().filter(|l| !a.contains(l))).take(6).collect();
-                    x.violate("C07:static:python-differs-from-proto", format!("the descriptors embedded in the Python bindings differ from the .proto files: {:?}", diff));
+                // the Python bindings carry the same schema as the .proto files (names may lag behind a rename: the
+                // wire does not see them)
+                let mut d = pbwire::compat_diff(&e.proto, &e.python);
+                d.extend(pbwire::compat_diff(&e.python, &e.proto));
+                if !d.is_empty() {
+                    d.truncate(6);
+                    x.violate("C07:static:python-differs-from-proto", format!("the descriptors embedded in the Python bindings differ from the .proto files: {:?}", d));
                 }
                 // the published schema must still be part of the working tree's schema: a field or enum value that
                 // was renumbered, re-typed, re-labelled or removed (even consistently in all three copies) makes
-                // stored artifacts and other implementations unreadable; additions are fine
-                let (g, w) = (e.golden.fingerprint(), e.proto.fingerprint());
-                let lost: Vec<&String> = g.iter().filter(|l| !l.starts_with("enum ") && !w.contains(l)).take(6).collect();
+                // stored artifacts and other implementations unreadable; additions and mere renames are fine
+                let mut lost = pbwire::compat_diff(&e.golden, &e.proto);
                 if !lost.is_empty() {
-                    x.violate("C07:static:published-schema-changed", format!("fields of the published schema that the working tree's .proto files no longer define identically: {:?}", lost));
-                }
-                for (n, vals) in &e.golden.enums {
-                    let now = e.proto.enums.get(n).cloned().unwrap_or_default();
-                    for v in vals {
-                        if !now.contains(v) {
-                            x.violate("C07:static:published-schema-changed", format!("enum {n}: published value {:?} is no longer defined identically", v));
-                        }
-                    }
+                    lost.truncate(6);
+                    x.violate("C07:static:published-schema-changed", format!("the working tree's .proto files no longer define what was published: {:?}", lost));
                 }
                 for (c, d) in static_diff(&e.golden, "published schema") {
                     if c == "field-missing-in-schema" || c == "type-missing-in-schema" {
